@@ -56,6 +56,7 @@ def alphabet(rng, scale):
         "L:" + fmt_point(point(rng, scale, bad=True)) + ":" + str(rng.choice([500, 70000])),
         "H:" + str(rng.choice([0, 1, 60000, 60001, 130000])),
         "F",
+        "I:" + str(rng.choice([0, 128, 255, 200])),      # init with an invalid scale on a builder in use: an error, nothing changes
     ]
 
 
@@ -84,8 +85,10 @@ def cases(rng, tier):
             elif r < 0.7:
                 d = rng.choice([0, 1, 20, 1000, 59999, 60000, 60001, 65535, 65536, 120001, 500000, 3600000, rng.randint(0, 200000)])
                 calls.append("L:" + fmt_point(point(rng, scale, bad=rng.random() < 0.1)) + ":" + str(d))
-            elif r < 0.9:
+            elif r < 0.86:
                 calls.append("H:" + str(rng.choice([0, 1, 999, 60000, 60001, 180000, rng.randint(0, 300000)])))
+            elif r < 0.9:
+                calls.append("I:" + str(rng.choice([0, 128, 255])))
             else:
                 calls.append("F")
         calls.append("F")
